@@ -128,6 +128,9 @@ func RoomID(s string) (v Verdict, opaque, domain string, isDomainless bool) {
 	if s == "" || s[0] != '!' {
 		return Invalid, "", "", false
 	}
+	if len(s) > 255 {
+		return Invalid, "", "", false // "the length of a room ID ... MUST NOT exceed 255 bytes"
+	}
 	i := strings.IndexByte(s, ':')
 	if i < 0 {
 		if domainless.MatchString(s[1:]) {
